@@ -28,7 +28,7 @@ CHECKS = {
             "runtime monitoring: metamorphic print/parse/read-back oracle on the real parser",
             "probe", "4/C24"),
     "C25": ("exploration",
-            "every string of length <= 7 (quick) / 9 (thorough) over {a,\\n,\\r,\\t,é} x every byte offset, plus corpus and random texts, against an "
+            "every string of length <= 7 (quick) / 8 (thorough) over {a,\\n,\\r,\\t,é} x every byte offset, plus corpus and random texts, against an "
             "independent line/column model.",
             "model counts \\n bytes; the rendered diagnostic header is checked on real compilations in the C06/C07 pipeline runs",
             "runtime monitoring: exhaustive small-scope differential check of LineIndex against a reference model",
